@@ -12,7 +12,7 @@ RULE = ('case = list of 0-6 parts (text/file interleaved; names and file names =
         'for a text and a file part; text values any text; file content adversarial bytes; content types with/without '
         'parameters), boundary over bchars extended until CRLF--boundary does not occur in any value (construction, no '
         'rejection), max_memfile_size = bytes of header blocks + text values + slack (file content often larger, so the '
-        'body spills), Content-Length or chunked framing, read-fragmentation caps. Oracle: dict(forms), files (name, '
+        'body spills), Content-Length or chunked framing, read-fragmentation caps. Oracle: all uploads read piecewise in turns (with a read of request.body in between) give their own bytes; dict(forms), files (name, '
         'raw_filename, content type, file.read()), POST (union, submission order) equal the generated list. Non-trivial = '
         '>=1 file and >=1 text part, or a separator character inside a quoted parameter, or a repeated name, or data '
         'containing a proper delimiter prefix; distinct by case hash.')
@@ -131,6 +131,29 @@ def check_case(ctx, case):
     @app.route('/f', method='POST')
     def h():
         rq = app.request
+        # first: all uploads read piecewise in turns (a few bytes of one, a few of the next ...), with a read of request.body in between:
+        # every upload is its own window onto the buffered body
+        ups = []
+        for v in rq.files.values():
+            ups += v if isinstance(v, list) else [v]
+        acc = [b''] * len(ups)
+        step = 1 + case['slack'] % 11
+        for u in ups:
+            u.file.seek(0)
+        rounds = 0
+        while True:
+            progressed = False
+            for i, u in enumerate(ups):
+                piece = u.file.read(step)
+                if piece:
+                    acc[i] += piece
+                    progressed = True
+            if rounds == 1:
+                rq.body.read(13)
+            rounds += 1
+            if not progressed:
+                break
+        seen['interleaved'] = [(u.name, u.raw_filename, acc[i]) for i, u in enumerate(ups)]
         seen['forms'] = observe(rq.forms)
         seen['files'] = observe(rq.files)
         seen['post'] = observe(rq.POST)
@@ -149,6 +172,9 @@ def check_case(ctx, case):
     if r.code != 200:
         raise CheckFailure(f'well-formed form rejected with {r.status!r}: boundary={boundary!r} mem={mem} body={body[:300]!r} '
                            f'errors={r.errors[-400:]}')
+    want_inter = [(p['name'], p['filename'], p['value']) for p in parts if p.get('filename') is not None]
+    if sorted(seen.get('interleaved') or [], key=repr) != sorted(want_inter, key=repr):
+        raise CheckFailure(f'uploads read piecewise in turns differ from what was sent: boundary={boundary!r}\n got  {seen.get("interleaved")!r}\n want {want_inter!r}')
     forms, files, post = expected_of(parts)
     for what, want in (('forms', forms), ('files', files), ('post', post)):
         got = seen.get(what)
